@@ -348,6 +348,20 @@ fn programs(depth: usize, offset: usize) -> Vec<(String, Vec<(String, String)>)>
         let src = format!("type X = {};\nparse.buildParsers<{{ X: X }}>();\n", members.join(" | "));
         out.push((format!("discriminated union {}", members.join(" | ")), vec![("entry.ts".to_string(), src)]));
     } } } }
+    // generated: documentation comments of many shapes (tabs, no space after the star, multi-byte blanks and letters,
+    // tags, empty and one-line forms, a star-only line, CRLF) in front of a type, of a property and of the entry call
+    let docs: Vec<&str> = vec![
+        "/** plain */", "/**\n * two\n * lines\n */", "/**\n *no space after the star\n */", "/**\n *\ttab after the star\n */",
+        "/**\n *\u{3000}ideographic space after the star\n */", "/**\n *\u{a0}no-break space after the star\n */", "/**\n * \u{e9}\u{4e2d}\u{1f600} letters\n */",
+        "/**\n *\u{1f600}\n */", "/***/", "/** */", "/**\n *\n */", "/**\n\n */", "/**\r\n * crlf\r\n */", "/**\n * @deprecated\n * @format x\n */",
+        "/**\n \u{3000}* blank before the star\n */", "/**\n* star in the first column\n*/", "/** \u{2028} line separator */", "/**\n * trailing \u{3000}\n */",
+        "// line comment \u{3000}", "/* block \u{a0} */",
+    ];
+    for d in &docs {
+        out.push((format!("doc comment {:?} before a type", d), vec![("entry.ts".to_string(), format!("{}\ntype X = {{ a: string }};\nparse.buildParsers<{{ X: X }}>();\n", d))]));
+        out.push((format!("doc comment {:?} before a property", d), vec![("entry.ts".to_string(), format!("type X = {{\n  {}\n  a: string,\n  {}\n  b?: number }};\nparse.buildParsers<{{ X: X }}>();\n", d, d))]));
+        out.push((format!("doc comment {:?} before an exported interface in another module", d), vec![("t.ts".to_string(), format!("{}\nexport interface X {{\n  {}\n  a: string }}\n", d, d)), ("entry.ts".to_string(), "import { X } from \"./t\";\nparse.buildParsers<{ X: X }>();\n".to_string())]));
+    }
     let ls = leaves();
     for l in &ls { out.push((l.to_string(), single(l))); }
     let mut d1: Vec<String> = vec![];
@@ -444,12 +458,14 @@ fn fail_json(case: u64, descr: &str, files: &[(String, String)], why: &str) -> S
 // on the value. Exact in both directions. This goes through the real frontend (aliases, conditional types, the
 // conversion of named types it builds itself), not through hand-made NamedSchema values as the twin's `refs`.
 #[derive(Clone, Debug, PartialEq)]
-enum CV { Null, Num(i64), Str(&'static str), List(Vec<CV>), Obj(Vec<(&'static str, CV)>) }
+enum CV { Null, Num(i64), Str(&'static str), List(Vec<CV>), Obj(Vec<(&'static str, CV)>), Undef }
 #[derive(Clone, Debug)]
-enum CT { Null, Num, Str, Arr(Box<CT>), Tup(Vec<CT>, Option<Box<CT>>), Obj(Vec<(&'static str, CT)>), Or(Vec<CT>), Ref(&'static str) }
+// an object property whose name ends in `?` is optional: it may be absent, and (TypeScript's default reading) present with the value `undefined`
+enum CT { Null, Num, Str, Arr(Box<CT>), Tup(Vec<CT>, Option<Box<CT>>), Obj(Vec<(&'static str, CT)>), Or(Vec<CT>), Ref(&'static str), Undef }
 fn cv_ts(v: &CV) -> String {
     match v {
         CV::Null => "null".into(),
+        CV::Undef => "undefined".into(),
         CV::Num(i) => format!("{}", i),
         CV::Str(s) => format!("\"{}\"", s),
         CV::List(xs) => format!("[{}]", xs.iter().map(cv_ts).collect::<Vec<_>>().join(", ")),
@@ -458,7 +474,7 @@ fn cv_ts(v: &CV) -> String {
 }
 fn ct_ts(t: &CT) -> String {
     match t {
-        CT::Null => "null".into(), CT::Num => "number".into(), CT::Str => "string".into(),
+        CT::Null => "null".into(), CT::Num => "number".into(), CT::Str => "string".into(), CT::Undef => "undefined".into(),
         CT::Arr(i) => format!("({})[]", ct_ts(i)),
         CT::Tup(p, r) => { let mut parts: Vec<String> = p.iter().map(ct_ts).collect(); if let Some(r) = r { parts.push(format!("...({})[]", ct_ts(r))); } format!("[{}]", parts.join(", ")) }
         CT::Obj(fs) => format!("{{ {} }}", fs.iter().map(|(k, t)| format!("{}: {}", k, ct_ts(t))).collect::<Vec<_>>().join(", ")),
@@ -469,6 +485,7 @@ fn ct_ts(t: &CT) -> String {
 fn ct_member(t: &CT, v: &CV, defs: &[(&'static str, CT)]) -> bool {
     match t {
         CT::Null => *v == CV::Null,
+        CT::Undef => *v == CV::Undef,
         CT::Num => matches!(v, CV::Num(_)),
         CT::Str => matches!(v, CV::Str(_)),
         CT::Arr(i) => match v { CV::List(xs) => xs.iter().all(|x| ct_member(i, x, defs)), _ => false },
@@ -478,7 +495,7 @@ fn ct_member(t: &CT, v: &CV, defs: &[(&'static str, CT)]) -> bool {
             _ => false,
         },
         CT::Obj(fs) => match v {
-            CV::Obj(kv) => fs.iter().all(|(k, t)| match kv.iter().find(|(k2, _)| k2 == k) { Some((_, x)) => ct_member(t, x, defs), None => false }),
+            CV::Obj(kv) => fs.iter().all(|(k, t)| { let (name, opt) = match k.strip_suffix('?') { Some(n) => (n, true), None => (*k, false) }; match kv.iter().find(|(k2, _)| *k2 == name) { Some((_, x)) => ct_member(t, x, defs) || (opt && *x == CV::Undef), None => opt } }),
             _ => false,
         },
         CT::Or(vs) => vs.iter().any(|t| ct_member(t, v, defs)),
@@ -723,7 +740,8 @@ fn rt_eval(r: &beff_core::ast::runtype::Runtype, v: &CV, vals: &[beff_core::Name
         RuntypeKind::Null => *v == CV::Null,
         RuntypeKind::String => matches!(v, CV::Str(_)),
         RuntypeKind::Number => matches!(v, CV::Num(_)),
-        RuntypeKind::Boolean | RuntypeKind::Undefined | RuntypeKind::Void | RuntypeKind::Function | RuntypeKind::Date | RuntypeKind::BigInt => false,
+        RuntypeKind::Undefined | RuntypeKind::Void => *v == CV::Undef,
+        RuntypeKind::Boolean | RuntypeKind::Function | RuntypeKind::Date | RuntypeKind::BigInt => false,
         RuntypeKind::Any => true,
         RuntypeKind::Never => false,
         RuntypeKind::AnyArrayLike => matches!(v, CV::List(_)),
@@ -784,12 +802,15 @@ fn exclude_family(only: Option<u64>, thin: u64) {
         CT::Tup(vec![CT::Num], None), CT::Tup(vec![CT::Num, CT::Str], None), CT::Tup(vec![CT::Num], Some(b(CT::Str))), CT::Arr(b(CT::Num)), CT::Arr(b(CT::Or(vec![CT::Num, CT::Str]))),
         CT::Obj(vec![("v", CT::Num)]), CT::Obj(vec![("v", CT::Str)]), CT::Obj(vec![("v", CT::Or(vec![CT::Num, CT::Str]))]), CT::Obj(vec![("v", CT::Num), ("next", CT::Null)]),
         CT::Ref("T"), CT::Ref("L"),
+        // optional properties, with and without an explicit `undefined`
+        CT::Obj(vec![("a?", CT::Str), ("b", CT::Num)]), CT::Obj(vec![("a?", CT::Or(vec![CT::Str, CT::Undef])), ("b", CT::Num)]), CT::Obj(vec![("a", CT::Or(vec![CT::Str, CT::Undef])), ("b", CT::Num)]),
     ];
     let mut types: Vec<CT> = atoms.clone();
     for (i, x) in atoms.iter().enumerate() { for y in atoms.iter().skip(i + 1) { types.push(CT::Or(vec![x.clone(), y.clone()])); } }
     // values
     let mut values = cv_values(2);
-    for extra_v in [CV::Num(2), CV::Num(3), CV::Str("b"), CV::Str("c"), CV::List(vec![CV::Num(3)]), CV::Obj(vec![("v", CV::Num(3))]), CV::Obj(vec![("v", CV::Str("c"))]), CV::List(vec![CV::Num(1), CV::Str("a")]), CV::List(vec![CV::Num(1), CV::Str("a"), CV::Str("b")]), CV::List(vec![CV::Num(1), CV::Num(2)]), CV::Obj(vec![("v", CV::Str("a"))]), CV::Obj(vec![("v", CV::Num(1))])] {
+    for extra_v in [CV::Num(2), CV::Num(3), CV::Str("b"), CV::Str("c"), CV::List(vec![CV::Num(3)]), CV::Obj(vec![("v", CV::Num(3))]), CV::Obj(vec![("v", CV::Str("c"))]), CV::List(vec![CV::Num(1), CV::Str("a")]), CV::List(vec![CV::Num(1), CV::Str("a"), CV::Str("b")]), CV::List(vec![CV::Num(1), CV::Num(2)]), CV::Obj(vec![("v", CV::Str("a"))]), CV::Obj(vec![("v", CV::Num(1))]),
+        CV::Obj(vec![("b", CV::Num(1))]), CV::Obj(vec![("a", CV::Undef), ("b", CV::Num(1))]), CV::Obj(vec![("a", CV::Str("a")), ("b", CV::Num(1))]), CV::Obj(vec![("a", CV::Num(1)), ("b", CV::Num(1))])] {
         if !values.contains(&extra_v) { values.push(extra_v); }
     }
     let lit_member = |n: &str, v: &CV| -> Option<bool> { match n { "One" => Some(*v == CV::Num(1)), "Two" => Some(*v == CV::Num(2)), "SA" => Some(*v == CV::Str("a")), "SB" => Some(*v == CV::Str("b")), _ => None } };
@@ -800,7 +821,7 @@ fn exclude_family(only: Option<u64>, thin: u64) {
             CT::Arr(i) => match v { CV::List(xs) => xs.iter().all(|x| mem2(i, x, defs, lit_member)), _ => false },
             CT::Tup(p, r) => match v { CV::List(xs) => xs.len() >= p.len() && (xs.len() == p.len() || r.is_some()) && xs.iter().enumerate().all(|(i, x)| if i < p.len() { mem2(&p[i], x, defs, lit_member) } else { mem2(r.as_ref().unwrap(), x, defs, lit_member) }), _ => false },
             // structural reading of object types (as the validators read them)
-            CT::Obj(fs) => match v { CV::Obj(kv) => fs.iter().all(|(k, t)| match kv.iter().find(|(k2, _)| k2 == k) { Some((_, x)) => mem2(t, x, defs, lit_member), None => false }), _ => false },
+            CT::Obj(fs) => match v { CV::Obj(kv) => fs.iter().all(|(k, t)| { let (name, opt) = match k.strip_suffix('?') { Some(n) => (n, true), None => (*k, false) }; match kv.iter().find(|(k2, _)| *k2 == name) { Some((_, x)) => mem2(t, x, defs, lit_member) || (opt && *x == CV::Undef), None => opt } }), _ => false },
             other => ct_member(other, v, defs),
         }
     }
